@@ -190,7 +190,7 @@ func (mv mapValue) IndexValue(iv Value) Value {
 	mr := reflect.ValueOf(mv.value)
 	ir := reflect.ValueOf(iv.Interface())
 	kt := mr.Type().Key()
-	if ir.IsValid() && ir.Type().ConvertibleTo(kt) && ir.Type().Comparable() {
+	if ir.IsValid() && ir.Type().ConvertibleTo(kt) && ir.Comparable() {
 		er := mr.MapIndex(ir.Convert(kt))
 		if er.IsValid() {
 			return ValueOf(er.Interface())
@@ -203,7 +203,7 @@ func (mv mapValue) PropertyValue(iv Value) Value {
 	mr := reflect.ValueOf(mv.Interface())
 	ir := reflect.ValueOf(iv.Interface())
 	kt := mr.Type().Key()
-	if ir.IsValid() && ir.Type().ConvertibleTo(kt) && ir.Type().Comparable() {
+	if ir.IsValid() && ir.Type().ConvertibleTo(kt) && ir.Comparable() {
 		er := mr.MapIndex(ir.Convert(kt))
 		if er.IsValid() {
 			return ValueOf(er.Interface())
